@@ -450,7 +450,6 @@ func namedOfAddrBase(v ssa.Value) string {
 	}
 }
 
-
 // thresholdDirection: the boolean result idx of fn is true only behind
 // count > ⌊2·len(msgs)/3⌋ and false only behind its complement (whichever way
 // the comparison is written and whichever branch comes first).
